@@ -6,41 +6,47 @@ From PPV Require Import Base.QN C21.Model C21.Proofs.
 Import ListNotations.
 Open Scope Q_scope.
 
-(* ppc -> net -> ppc on a branch converted to a line: r, x, b are reproduced, the conductance is HALVED
-   (from_ppc.py:224) — exact characterisation of the implementation as it is *)
-Theorem C21_line_roundtrip_faithful : forall pif S vn r,
+(* ppc -> net -> ppc on a branch converted to a line: r, x, b and g are reproduced (after the repair
+   "fix: from_ppc no longer halves the line conductance") *)
+Theorem C21_line_roundtrip : forall pif S vn r,
   ~ pif == 0 -> ~ S == 0 -> ~ vn == 0 ->
   let r' := to_line pif S vn (from_line pif S vn r) in
-  br_r r' == br_r r /\ br_x r' == br_x r /\ br_b r' == br_b r /\ br_g r' == br_g r / 2.
-Proof. exact ppc_line_roundtrip. Qed.
-Print Assumptions C21_line_roundtrip_faithful.
-
-(* full statement "the line row is reproduced" is false of the implementation ... *)
-Theorem C21_line_roundtrip_refuted :
-  exists pif S vn r, ~ pif == 0 /\ ~ S == 0 /\ ~ vn == 0 /\
-    ~ br_g (to_line pif S vn (from_line pif S vn r)) == br_g r.
-Proof. exact line_roundtrip_refuted. Qed.
-Print Assumptions C21_line_roundtrip_refuted.
-
-(* ... and holds under the guard G21_line (no branch conductance) *)
-Theorem C21_line_roundtrip_partial : forall pif S vn r,
-  ~ pif == 0 -> ~ S == 0 -> ~ vn == 0 -> G21_line r = true ->
-  let r' := to_line pif S vn (from_line pif S vn r) in
   br_r r' == br_r r /\ br_x r' == br_x r /\ br_b r' == br_b r /\ br_g r' == br_g r.
-Proof. exact line_roundtrip_partial. Qed.
-Print Assumptions C21_line_roundtrip_partial.
+Proof. exact ppc_line_roundtrip. Qed.
+Print Assumptions C21_line_roundtrip.
 
-Example C21_line_roundtrip_nonvacuous :
-  G21_line {| br_r := 1 # 64; br_x := 3 # 64; br_b := 1 # 1000; br_g := 0 |} = true /\ ~ (157 # 1) == 0.
-Proof. split; [reflexivity | intro H; discriminate H]. Qed.
+Example C21_line_roundtrip_nonvacuous : ~ (157 # 1) == 0 /\ ~ (10 # 1) == 0 /\ ~ (20 # 1) == 0.
+Proof. repeat split; intro H; discriminate H. Qed.
 
-(* net -> ppc -> net: the created line (length 1, parallel 1) carries the same total ohmic r, x, c *)
+(* the rule before the repair (g = G/Zni*1e6/2) halved the conductance: exact characterisation, regression witness and
+   the guard under which it was right *)
+Theorem C21_line_roundtrip_old_faithful : forall pif S vn r,
+  ~ pif == 0 -> ~ S == 0 -> ~ vn == 0 ->
+  let r' := to_line pif S vn (from_line_old pif S vn r) in
+  br_r r' == br_r r /\ br_x r' == br_x r /\ br_b r' == br_b r /\ br_g r' == br_g r / 2.
+Proof. exact ppc_line_roundtrip_old. Qed.
+Print Assumptions C21_line_roundtrip_old_faithful.
+
+Theorem C21_line_roundtrip_old_refuted :
+  exists pif S vn r, ~ pif == 0 /\ ~ S == 0 /\ ~ vn == 0 /\
+    ~ br_g (to_line pif S vn (from_line_old pif S vn r)) == br_g r.
+Proof. exact line_roundtrip_old_refuted. Qed.
+Print Assumptions C21_line_roundtrip_old_refuted.
+
+Theorem C21_line_roundtrip_old_partial : forall pif S vn r,
+  ~ pif == 0 -> ~ S == 0 -> ~ vn == 0 -> G21_line r = true ->
+  let r' := to_line pif S vn (from_line_old pif S vn r) in
+  br_r r' == br_r r /\ br_x r' == br_x r /\ br_b r' == br_b r /\ br_g r' == br_g r.
+Proof. exact line_roundtrip_old_partial. Qed.
+Print Assumptions C21_line_roundtrip_old_partial.
+
+(* net -> ppc -> net: the created line (length 1, parallel 1) carries the same total ohmic r, x, c, g *)
 Theorem C21_line_ohmic_equivalent : forall pif S vn l,
   ~ pif == 0 -> ~ S == 0 -> ~ vn == 0 -> ~ l_par l == 0 ->
   let l' := from_line pif S vn (to_line pif S vn l) in
   l_len l' == 1 /\ l_par l' == 1 /\
   l_r l' == l_r l * l_len l / l_par l /\ l_x l' == l_x l * l_len l / l_par l /\
-  l_c l' == l_c l * l_len l * l_par l /\ l_g l' == l_g l * l_len l * l_par l / 2.
+  l_c l' == l_c l * l_len l * l_par l /\ l_g l' == l_g l * l_len l * l_par l.
 Proof. exact line_ohmic_equiv. Qed.
 Print Assumptions C21_line_ohmic_equivalent.
 
@@ -72,13 +78,15 @@ Theorem C21_trafo_roundtrip : forall S fvn tvn zk ym r x b g tap shift rate sq_v
 Proof. exact trafo_roundtrip_sec. Qed.
 Print Assumptions C21_trafo_roundtrip.
 
-(* RATE_A = NaN (max_loading_percent NaN for that transformer): sn_mva := NaN, the converted transformer has no impedance *)
-Theorem C21_trafo_rate_nan_refuted : forall S fvn tvn zk ym r x b g tap shift sq_vn sq_x sq_b,
-  let t := fst (from_trafo S fvn tvn zk ym r x b g tap shift None) in
-  tr_r (to_trafo S (t_vnh t) (t_vnl t) sq_vn sq_x sq_b t) = None /\
-  tr_x (to_trafo S (t_vnh t) (t_vnl t) sq_vn sq_x sq_b t) = None.
-Proof. exact trafo_rate_nan_loses_impedance. Qed.
-Print Assumptions C21_trafo_rate_nan_refuted.
+(* RATE_A = NaN (max_loading_percent NaN for that transformer): after the repair "fix: from_ppc treats a NaN branch rating
+   like a missing one" every rating yields a positive sn_mva (so C21_trafo_roundtrip applies); before it NaN stayed NaN *)
+Theorem C21_rating_always_positive : forall rate, (match rate with Some r => 0 <= r | None => True end) ->
+  exists s, sn_of_rate rate = Some s /\ 0 < s.
+Proof. exact sn_of_rate_total. Qed.
+Print Assumptions C21_rating_always_positive.
+Theorem C21_rating_old_nan_refuted : sn_of_rate_old None = None.
+Proof. exact sn_of_rate_old_nan. Qed.
+Print Assumptions C21_rating_old_nan_refuted.
 
 (* bus rows: PD/QD -> load or sgen -> PD/QD ; GS/BS -> shunt -> GS/BS *)
 Theorem C21_bus_pq_roundtrip : forall pd qd,
